@@ -149,3 +149,255 @@ theorem chain_parity (b : Pt → Bool) : ∀ (a : Pt) (r : List Pt),
       simp [hba, hbc, hbl] at ih ⊢ <;> omega
 
 end Gwcs.Poly
+
+namespace Gwcs.Poly
+
+/-! ### translation -/
+
+def Edge.shift (dx dy : Int) (e : Edge) : Edge := ⟨e.sx + dx, e.sy + dy, e.ex + dx, e.ey + dy⟩
+
+theorem edgesOf_translate (dx dy : Int) : ∀ v : List Pt,
+    edgesOf (translate dx dy v) = (edgesOf v).map (Edge.shift dx dy)
+  | [] => by simp [translate, edgesOf]
+  | [a] => by simp [translate, edgesOf]
+  | a :: b :: r => by
+    have ih := edgesOf_translate dx dy (b :: r)
+    simp only [translate, List.map_cons] at ih ⊢
+    simp only [edgesOf, List.map_cons, ih]
+    rfl
+
+theorem shift_ymin (dx dy : Int) (e : Edge) : (e.shift dx dy).ymin = e.ymin + dy := by
+  unfold Edge.shift Edge.ymin; simp only; omega
+
+theorem shift_ymax (dx dy : Int) (e : Edge) : (e.shift dx dy).ymax = e.ymax + dy := by
+  unfold Edge.shift Edge.ymax; simp only; omega
+
+theorem shift_xAt (dx dy : Int) (e : Edge) (y : Int) :
+    (e.shift dx dy).xAt (y + dy) = e.xAt y + (dx : Rat) := by
+  unfold Edge.shift Edge.xAt
+  simp only
+  have h1 : y + dy - (e.sy + dy) = y - e.sy := by omega
+  have h2 : e.ex + dx - (e.sx + dx) = e.ex - e.sx := by omega
+  have h3 : e.ey + dy - (e.sy + dy) = e.ey - e.sy := by omega
+  rw [h1, h2, h3, Rat.intCast_add]
+  grind
+
+theorem activeLo_shift (dx dy : Int) (es : List Edge) (y : Int) :
+    activeLo (es.map (Edge.shift dx dy)) (y + dy) = (activeLo es y).map (Edge.shift dx dy) := by
+  unfold activeLo
+  rw [List.filter_map]
+  congr 1
+  apply List.filter_congr
+  intro e _
+  simp only [Function.comp, shift_ymin, shift_ymax]
+  have : (e.ymin + dy ≤ y + dy ∧ y + dy < e.ymax + dy) ↔ (e.ymin ≤ y ∧ y < e.ymax) := by omega
+  simp [this]
+
+theorem foldl_min_shift (f : Pt → Int) (g : Pt → Int) (d : Int) (hfg : ∀ p, g p = f p + d) :
+    ∀ (v : List Pt) (i : Int),
+      v.foldl (fun m p => min m (g p)) (i + d) = v.foldl (fun m p => min m (f p)) i + d
+  | [], i => rfl
+  | a :: r, i => by
+    simp only [List.foldl_cons]
+    have : min (i + d) (g a) = min i (f a) + d := by rw [hfg]; omega
+    rw [this, foldl_min_shift f g d hfg r]
+
+theorem foldl_max_shift (f : Pt → Int) (g : Pt → Int) (d : Int) (hfg : ∀ p, g p = f p + d) :
+    ∀ (v : List Pt) (i : Int),
+      v.foldl (fun m p => max m (g p)) (i + d) = v.foldl (fun m p => max m (f p)) i + d
+  | [], i => rfl
+  | a :: r, i => by
+    simp only [List.foldl_cons]
+    have : max (i + d) (g a) = max i (f a) + d := by rw [hfg]; omega
+    rw [this, foldl_max_shift f g d hfg r]
+
+theorem foldl_map_pt (h : Pt → Pt) (op : Int → Int → Int) (f : Pt → Int) : ∀ (v : List Pt) (i : Int),
+    (v.map h).foldl (fun m p => op m (f p)) i = v.foldl (fun m p => op m (f (h p))) i
+  | [], i => rfl
+  | a :: r, i => by simp only [List.map_cons, List.foldl_cons]; exact foldl_map_pt h op f r _
+
+theorem minX_translate (dx dy : Int) (v : List Pt) (i : Int) :
+    minX (translate dx dy v) (i + dx) = minX v i + dx := by
+  unfold minX translate
+  rw [foldl_map_pt _ min (fun p => p.x)]
+  exact foldl_min_shift (fun p => p.x) _ dx (fun p => rfl) v i
+
+theorem minY_translate (dx dy : Int) (v : List Pt) (i : Int) :
+    minY (translate dx dy v) (i + dy) = minY v i + dy := by
+  unfold minY translate
+  rw [foldl_map_pt _ min (fun p => p.y)]
+  exact foldl_min_shift (fun p => p.y) _ dy (fun p => rfl) v i
+
+theorem maxX_translate (dx dy : Int) (v : List Pt) (i : Int) :
+    maxX (translate dx dy v) (i + dx) = maxX v i + dx := by
+  unfold maxX translate
+  rw [foldl_map_pt _ max (fun p => p.x)]
+  exact foldl_max_shift (fun p => p.x) _ dx (fun p => rfl) v i
+
+theorem maxY_translate (dx dy : Int) (v : List Pt) (i : Int) :
+    maxY (translate dx dy v) (i + dy) = maxY v i + dy := by
+  unfold maxY translate
+  rw [foldl_map_pt _ max (fun p => p.y)]
+  exact foldl_max_shift (fun p => p.y) _ dy (fun p => rfl) v i
+
+theorem pairs_map_add (d : Int) : ∀ l : List Int,
+    pairs (l.map (· + d)) = (pairs l).map (fun ij => (ij.1 + d, ij.2 + d))
+  | [] => rfl
+  | [a] => rfl
+  | a :: b :: r => by simp [pairs, pairs_map_add d r]
+
+theorem markedBy_map_add (d : Int) (l : List Int) (p : Int) :
+    markedBy (l.map (· + d)) (p + d) = markedBy l p := by
+  unfold markedBy
+  rw [pairs_map_add, List.any_map]
+  congr 1
+  funext ij
+  simp only [Function.comp]
+  have : (ij.1 + d ≤ p + d ∧ p + d ≤ ij.2 + d) ↔ (ij.1 ≤ p ∧ p ≤ ij.2) := by omega
+  simp [this]
+
+theorem sortInts_map_add (d : Int) (l : List Int) :
+    sortInts (l.map (· + d)) = (sortInts l).map (· + d) := by
+  apply List.Perm.eq_of_pairwise (le := fun a b : Int => a ≤ b)
+  · intro a b _ _ h1 h2; omega
+  · exact sortInts_sorted _
+  · have := sortInts_sorted l
+    rw [List.pairwise_map]
+    exact this.imp (by intro a b h; omega)
+  · exact (sortInts_perm _).trans ((sortInts_perm l).symm.map _)
+
+end Gwcs.Poly
+
+namespace Gwcs.Poly
+
+/-! ### incremental Active Edge Table -/
+
+theorem filter_disjoint_perm {α} (p q : α → Bool) (hd : ∀ a, ¬ (p a = true ∧ q a = true)) :
+    ∀ l : List α, (l.filter p ++ l.filter q).Perm (l.filter (fun a => p a || q a))
+  | [] => by simp
+  | a :: l => by
+    have ih := filter_disjoint_perm p q hd l
+    cases hp : p a <;> cases hq : q a
+    · simpa [List.filter_cons, hp, hq] using ih
+    · simp only [List.filter_cons, hp, hq, Bool.false_or, if_true]
+      exact List.perm_middle.trans (ih.cons a)
+    · simp only [List.filter_cons, hp, hq, Bool.or_false, if_true, List.cons_append]
+      exact ih.cons a
+    · exact absurd ⟨hp, hq⟩ (hd a)
+
+theorem updateAET_perm (es : List Edge) (y : Int) (prev : List Edge)
+    (hprev : prev.Perm (activeLo es (y - 1))) : (updateAET es y prev).Perm (activeLo es y) := by
+  unfold updateAET
+  rw [List.filter_append]
+  have h1 : (prev.filter (fun e => decide (e.ymax ≠ y))).Perm
+      (es.filter (fun e => decide (e.ymin < y ∧ y < e.ymax))) := by
+    refine (hprev.filter _).trans ?_
+    unfold activeLo
+    rw [List.filter_filter]
+    apply List.Perm.of_eq
+    apply List.filter_congr
+    intro e _
+    have : (e.ymax ≠ y ∧ (e.ymin ≤ y - 1 ∧ y - 1 < e.ymax)) ↔ (e.ymin < y ∧ y < e.ymax) := by omega
+    simp only [← Bool.decide_and, this]
+  have h2 : ((es.filter (fun e => decide (e.sy ≠ e.ey ∧ e.ymin = y))).filter (fun e => decide (e.ymax ≠ y))) =
+      es.filter (fun e => decide (e.ymin = y ∧ y < e.ymax)) := by
+    rw [List.filter_filter]
+    apply List.filter_congr
+    intro e _
+    have : (e.ymax ≠ y ∧ (e.sy ≠ e.ey ∧ e.ymin = y)) ↔ (e.ymin = y ∧ y < e.ymax) := by
+      unfold Edge.ymin Edge.ymax; omega
+    simp only [← Bool.decide_and, this]
+  rw [h2]
+  refine (h1.append_right _).trans ?_
+  refine (filter_disjoint_perm _ _ (by intro e; simp; omega) es).trans ?_
+  unfold activeLo
+  apply List.Perm.of_eq
+  apply List.filter_congr
+  intro e _
+  have : ((e.ymin < y ∧ y < e.ymax) ∨ (e.ymin = y ∧ y < e.ymax)) ↔ (e.ymin ≤ y ∧ y < e.ymax) := by omega
+  simp only [← Bool.decide_or, this]
+
+theorem activeLo_below_nil (es : List Edge) (ybot y : Int) (hb : ∀ e ∈ es, ybot ≤ e.ymin) (hy : y < ybot) :
+    activeLo es y = [] := by
+  unfold activeLo
+  rw [List.filter_eq_nil_iff]
+  intro e he
+  have := hb e he
+  simp; omega
+
+theorem aetLoop_perm (es : List Edge) (ybot ytop : Int) (hb : ∀ e ∈ es, ybot ≤ e.ymin) :
+    ∀ k : Nat, (aetLoop es ybot ytop k).Perm
+      (if ybot + (k : Int) < ytop then activeLo es (ybot + k) else
+        if ybot < ytop then activeLo es (ytop - 1) else [])
+  | 0 => by
+    unfold aetLoop
+    by_cases h : ybot < ytop
+    · have h' : ybot + ((0 : Nat) : Int) < ytop := by simpa using h
+      rw [if_pos h, if_pos h']
+      have := updateAET_perm es ybot [] (by rw [activeLo_below_nil es ybot _ hb (by omega)])
+      simpa using this
+    · have h' : ¬ ybot + ((0 : Nat) : Int) < ytop := by simpa using h
+      rw [if_neg h, if_neg h', if_neg h]
+  | k + 1 => by
+    have ih := aetLoop_perm es ybot ytop hb k
+    unfold aetLoop
+    simp only
+    by_cases h : ybot + ((k + 1 : Nat) : Int) < ytop
+    · rw [if_pos h, if_pos h]
+      have hk : ybot + (k : Int) < ytop := by omega
+      rw [if_pos hk] at ih
+      apply updateAET_perm
+      have : ybot + ((k + 1 : Nat) : Int) - 1 = ybot + (k : Int) := by omega
+      rw [this]; exact ih
+    · rw [if_neg h, if_neg h]
+      by_cases hk : ybot + (k : Int) < ytop
+      · rw [if_pos hk] at ih
+        have h1 : ybot < ytop := by omega
+        rw [if_pos h1]
+        have : ytop - 1 = ybot + (k : Int) := by omega
+        rw [this]; exact ih
+      · rw [if_neg hk] at ih; exact ih
+
+/-- every edge of the chain joins two of its vertices -/
+theorem edgesOf_endpoints : ∀ (v : List Pt) (e : Edge), e ∈ edgesOf v →
+    (∃ p ∈ v, e.sy = p.y ∧ e.sx = p.x) ∧ (∃ q ∈ v, e.ey = q.y ∧ e.ex = q.x)
+  | [], e, h => by simp [edgesOf] at h
+  | [a], e, h => by simp [edgesOf] at h
+  | a :: b :: r, e, h => by
+    simp only [edgesOf, List.mem_cons] at h
+    rcases h with rfl | h
+    · exact ⟨⟨a, by simp, rfl, rfl⟩, ⟨b, by simp, rfl, rfl⟩⟩
+    · obtain ⟨⟨p, hp, h1⟩, ⟨q, hq, h2⟩⟩ := edgesOf_endpoints (b :: r) e h
+      exact ⟨⟨p, List.mem_cons_of_mem _ hp, h1⟩, ⟨q, List.mem_cons_of_mem _ hq, h2⟩⟩
+
+theorem minY_le : ∀ (r : List Pt) (i : Int), minY r i ≤ i ∧ ∀ p ∈ r, minY r i ≤ p.y
+  | [], i => by simp [minY]
+  | a :: r, i => by
+    have ih := minY_le r (min i a.y)
+    unfold minY at ih ⊢
+    simp only [List.foldl_cons]
+    refine ⟨by omega, ?_⟩
+    intro p hp
+    rcases List.mem_cons.mp hp with rfl | hp
+    · omega
+    · exact ih.2 p hp
+
+theorem geoOf_ybot_le (v : List Pt) : ∀ e ∈ (geoOf v).es, (geoOf v).ybot ≤ e.ymin := by
+  cases v with
+  | nil => simp [geoOf]
+  | cons a r =>
+    intro e he
+    simp only [geoOf] at he ⊢
+    obtain ⟨⟨p, hp, h1, _⟩, ⟨q, hq, h2, _⟩⟩ := edgesOf_endpoints (a :: r) e he
+    have hm := minY_le r a.y
+    have hP : minY r a.y ≤ p.y := by
+      rcases List.mem_cons.mp hp with rfl | hp
+      · exact hm.1
+      · exact hm.2 p hp
+    have hQ : minY r a.y ≤ q.y := by
+      rcases List.mem_cons.mp hq with rfl | hq
+      · exact hm.1
+      · exact hm.2 q hq
+    unfold Edge.ymin; omega
+
+end Gwcs.Poly
